@@ -149,6 +149,10 @@ def run_rules(ctx, res):
             res.inst(EOFK, "eof-column", tt.where, True, "%s = %s (%s)" % (eofv, dn, good))
             if not good:
                 res.violate(EOFK, "eof-column", tt.where, "the end-of-input look-ahead kind must be declared with discriminant = number of terminal variants (the last table column)")
+        else:
+            res.unanalysable(EOFK, "eof-column", t.where, "expected exactly one declaration of the look-ahead kind enum `%s` in the templates, found %d" % (kind_enum, len(decl)))
+    else:
+        res.unanalysable(EOFK, "eof-column", t.where, "cannot identify the look-ahead kind enum the end-of-input variant maps to")
     return ts
 
 
